@@ -201,7 +201,7 @@ impl Monitor for C05 {
         vec![("miri", 1), ("schedules", tier.pick(24, 600)), ("wide", tier.pick(4, 40)), ("stacks", tier.pick(8, 200)), ("images", tier.pick(6, 120))]
     }
     fn rule(&self) -> &'static str {
-        "case = a network with every layer kind and 1..4 channels (convolution, feedback block of convolution+deconvolution, deconvolution, max-pool, five dense layers, a skip connection across the block, two skip connections sharing their source, a loop connection over a dense layer, dropout on random layers), 24..64 training samples, batch 1..32, 2 epochs with 150..300 or 500..1300 validation inputs (2..21 chunks of 64, not a multiple of 64), followed by validate() and predict_batch() on the same inputs. The identical call is executed in a 1-thread pool without delays (reference) and in dedicated rayon pools of 2, 3, 4, 7, 16, 33 and 64 threads with the delay injector armed (random 0..300 us stalls at the entry of every per-sample forward pass, two delay seeds per pool size), plus once in an 8-thread pool while 16 busy threads starve the machine, plus a repetition of the reference, plus two runs (1 and 4 threads) in which the evaluation tensors are stored elsewhere and in another order in memory while the reference vectors list them in the same logical order. Every output - per-epoch train/validation loss and accuracy, all final weights, the validate() result, every predict_batch() output in order - must be bit-identical to the reference. Evidence that schedules differed: per training group the sample->worker assignment and the order in which the per-sample tasks started, taken from the event log; distinct = distinct (case, assignment/start-order) schedules observed. stacks: the same protocol on stacks of 3..6 convolutions / deconvolutions with 1..5 input channels and 1..5 filters each (more channels than filters, as many, fewer), kernels 1 or 3, paddings 0..2 and any activation incl. soft-max per layer (consecutive layers work on intermediate tensors of equal shape with different margins), max-pool, two dense layers. wide: the same protocol on networks whose dense layers have 4096..8200 inputs or outputs. images: stacks that END in a convolution with 5..12 filters (image-shaped predictions and targets, so the objective sums over channels), trained without validation data (validate() needs a dense output layer) and evaluated by predict_batch(). Miri leg: /verif/miri under -Zmiri-many-seeds (4 seeds quick, 32 thorough): every seed must print the same bit patterns and Miri must report no undefined behaviour or data race."
+        "case = a network with every layer kind and 1..4 channels (convolution, feedback block of convolution+deconvolution, deconvolution, max-pool, five dense layers, a skip connection across the block, two skip connections sharing their source, a loop connection over a dense layer, dropout on random layers), 24..64 training samples, batch 1..32, 2 epochs with 150..300 or 500..1300 validation inputs (2..21 chunks of 64, not a multiple of 64), followed by validate() and predict_batch() on the same inputs. The identical call is executed in a 1-thread pool without delays (reference) and in dedicated rayon pools of 2, 3, 4, 7, 16, 33 and 64 threads with the delay injector armed (random 0..300 us stalls at the entry of every per-sample forward pass, two delay seeds per pool size), plus once in an 8-thread pool while 16 busy threads starve the machine, plus a repetition of the reference, plus two runs (1 and 4 threads) in which the evaluation tensors are stored elsewhere and in another order in memory while the reference vectors list them in the same logical order; plus the same call with a target vector 1..3 entries longer than the input vector in pools of 1, 2, 3, 4 and 7 threads, compared among themselves (not judged if the library refuses such a call). Every output - per-epoch train/validation loss and accuracy, all final weights, the validate() result, every predict_batch() output in order - must be bit-identical to the reference. Evidence that schedules differed: per training group the sample->worker assignment and the order in which the per-sample tasks started, taken from the event log; distinct = distinct (case, assignment/start-order) schedules observed. stacks: the same protocol on stacks of 3..6 convolutions / deconvolutions with 1..5 input channels and 1..5 filters each (more channels than filters, as many, fewer), kernels 1 or 3, paddings 0..2 and any activation incl. soft-max per layer (consecutive layers work on intermediate tensors of equal shape with different margins), max-pool, two dense layers. wide: the same protocol on networks whose dense layers have 4096..8200 inputs or outputs. images: stacks that END in a convolution with 5..12 filters (image-shaped predictions and targets, so the objective sums over channels), trained without validation data (validate() needs a dense output layer) and evaluated by predict_batch(). Miri leg: /verif/miri under -Zmiri-many-seeds (4 seeds quick, 32 thorough): every seed must print the same bit patterns and Miri must report no undefined behaviour or data race."
     }
     fn assumptions(&self) -> Vec<&'static str> {
         vec![
@@ -315,8 +315,12 @@ impl Monitor for C05 {
         let vxr_moved: Vec<&Tensor> = (0..perm.len()).map(|i| &store_x[inv[i]]).collect();
         let vtr_moved: Vec<&Tensor> = (0..perm.len()).map(|i| &store_t[inv[i]]).collect();
         let moved = std::cell::Cell::new(false);
+        // a target vector that is longer than the input vector (the surplus is never looked at):
+        // whatever the library makes of such a call, it must make the same of it in every pool
+        let vtr_long: Vec<&Tensor> = vtr.iter().cloned().chain(vtr.iter().take(1 + (idx as usize) % 3).cloned()).collect();
+        let surplus = std::cell::Cell::new(false);
         let once = |threads: usize, delay_seed: u64, delay_us: u32| -> Run {
-            let (vxr, vtr) = if moved.get() { (&vxr_moved, &vtr_moved) } else { (&vxr, &vtr) };
+            let (vxr, vtr) = if moved.get() { (&vxr_moved, &vtr_moved) } else if surplus.get() { (&vxr, &vtr_long) } else { (&vxr, &vtr) };
             let mut net: Network = match build(&cfg, Some(&params)) {
                 Ok(n) => n,
                 Err(m) => return Run { outcome: Err(format!("build: {}", m)), schedules: vec![], forwards: 0 },
@@ -400,6 +404,25 @@ impl Monitor for C05 {
             for h in hogs {
                 let _ = h.join();
             }
+        }
+        // evaluation vectors of unequal length: compared among themselves (own 1-thread run)
+        if !image_out {
+            surplus.set(true);
+            let own = once(1, 0, 0);
+            if let Ok(own_bits) = &own.outcome {
+                for p in [2usize, 3, 4, 7] {
+                    let r = once(p, idx ^ (p as u64 * 977), 200);
+                    out.count("executions_with_a_longer_target_vector_compared", 1);
+                    match &r.outcome {
+                        Ok(o) if o == own_bits => {}
+                        Ok(_) => out.viol("determinism:differs:unequal-lengths", format!("validation targets longer than the validation inputs: the run in a {}-thread pool differs from the same call in a 1-thread pool [{}]", p, desc), J::s(&desc)),
+                        Err(m) => out.viol("determinism:panic:unequal-lengths", format!("validation targets longer than the validation inputs: accepted in a 1-thread pool, panics in a {}-thread pool: {} [{}]", p, short(m, 160), desc), J::s(&desc)),
+                    }
+                }
+            } else {
+                out.count("calls_with_a_longer_target_vector_refused_by_the_library", 1);
+            }
+            surplus.set(false);
         }
         for (name, run) in runs.iter() {
             out.count("executions_compared_with_the_reference", 1);
